@@ -34,7 +34,7 @@ func TestC21FailedAlterKeepsFullTextIndex(t *testing.T) {
 func TestC21AbortedRewriteLeavesTable(t *testing.T) {
 	cases := []struct{ setup, alter string }{
 		{"CREATE TABLE t (pk int primary key, e ENUM('a','b') NOT NULL, n int)", "ALTER TABLE t MODIFY COLUMN e ENUM('a','c') NOT NULL"}, // modifyColumnIter: enum remap exit
-		{"CREATE TABLE t (pk int, e ENUM('a','b') NOT NULL, n int)", "ALTER TABLE t ADD PRIMARY KEY (n)"},                              // createPkIter: NULL in the new key
+		{"CREATE TABLE t (pk int, e ENUM('a','b') NOT NULL, n int)", "ALTER TABLE t ADD PRIMARY KEY (n)"},                                // createPkIter: NULL in the new key
 	}
 	for _, cs := range cases {
 		e, ctx := newEngine(t)
